@@ -59,7 +59,18 @@ impl TruthTable<String> {
 
         let mut outputs = vec![false; 2_usize.pow(variable_column_index_map.len() as u32)];
 
-        for (csv_row_index, result) in reader.records().enumerate() {
+        // Without a header, the first record is already a data row.
+        let first_data_record = if is_header(&maybe_header_record)? {
+            None
+        } else {
+            Some(Ok(maybe_header_record.clone()))
+        };
+
+        for (csv_row_index, result) in first_data_record
+            .into_iter()
+            .chain(reader.records())
+            .enumerate()
+        {
             let record = result?;
 
             let valuation = parse_input_columns(
